@@ -240,6 +240,33 @@ pub fn run(tier: &str, seed: u64, s: &mut Sink) {
             emit_feed(s, "cut-bytes", &pieces);
         }
     }
+    // long bursts: more consecutive timestamp / marker words than any round batch size (2^16, 2^17, 2^18) without a
+    // scalers block in between, whole and cut in two; the parser must not stop at a capacity of its own
+    let bursts: &[usize] = if thorough { &[65535, 65536, 65537, 70001, 131073, 262145] } else { &[65535, 65536, 65537, 70001] };
+    for &n in bursts {
+        let mut b = Vec::with_capacity(4 * n + 300);
+        if r.chance(1, 2) {
+            b.extend(scalers(&mut r));
+        }
+        for _ in 0..n {
+            if r.chance(15, 16) {
+                b.extend(ts_word(&mut r));
+            } else {
+                b.extend(mk_word(&mut r));
+            }
+        }
+        if r.chance(1, 2) {
+            b.extend(scalers(&mut r));
+            b.extend(ts_word(&mut r));
+        }
+        // `cblong` / `cbfeedlong`: answered by the recursive model only (the combinator-level runner is quadratic in the
+        // stream length; the two models are proved equal, C07_cbw_fifo_eq)
+        s.put(&format!("cblong {}", hex(&b)), &observe_whole(&b), "long-burst", true);
+        let c = r.below(b.len() as u64 + 1) as usize;
+        let pieces = cut(&b, &[c]);
+        let hs: Vec<String> = pieces.iter().map(|p| hex(p)).collect();
+        s.put(&format!("cbfeedlong {}", hs.join(",")), &observe_feed(&pieces), "long-burst-cut1", true);
+    }
     // random bytes
     let n_rand = if thorough { 3000 } else { 300 };
     for _ in 0..n_rand {
@@ -253,8 +280,8 @@ pub fn run(tier: &str, seed: u64, s: &mut Sink) {
 pub fn observe_line(line: &str) -> Option<String> {
     let (tag, rest) = line.split_once(' ').unwrap_or((line, "-"));
     match tag {
-        "cb" => Some(observe_whole(&crate::util::unhex(rest))),
-        "cbfeed" => {
+        "cb" | "cblong" => Some(observe_whole(&crate::util::unhex(rest))),
+        "cbfeed" | "cbfeedlong" => {
             let pieces: Vec<Vec<u8>> = rest.split(',').map(crate::util::unhex).collect();
             Some(observe_feed(&pieces))
         }
